@@ -90,6 +90,11 @@ func NewParameterPool[T any](
 				"failed to persist generated parameter: [%w]",
 				err,
 			)
+			// Do not add the parameter to the pool if it could not be
+			// persisted: `persisted` is nil in that case and GetNow must
+			// be able to delete every parameter it hands out from the
+			// persistence layer.
+			return
 		}
 
 		select {
